@@ -432,4 +432,140 @@ theorem keptCells_spec (rings : Nat) (drop : List Nat) :
     simp only [Nat.sub_zero, Nat.zero_add] at hlt he
     rw [List.getElem?_eq_getElem hlt, he]
 
+/-! ### border clearance of the ANTIALIASED segments (the library default) -/
+
+/-- the antialiased support is inside the binary hexagon that is half a pixel larger: a positive antialiased value means every edge distance is
+below `inner + half` -/
+theorem hexagonAt_aa_pos (half inner : K) (sinT cosT : Nat → K) (n0 n1 : Int) (s0 s1 : K) (i j : Int)
+    (h : 0 < hexagonAt half inner sinT cosT n0 n1 s0 s1 true i j) :
+    hexagonAt half (inner + half) sinT cosT n0 n1 s0 s1 false i j = 1 := by
+  rw [hexagonAt_eq_one_iff]
+  unfold hexagonAt at h
+  simp only [minK_eq_min, lt_min_iff] at h
+  have side : ∀ n, 0 < hexSide half inner true (meshCoord n0 i s0) (meshCoord n1 j s1) (sinT n) (cosT n) →
+      meshCoord n0 i s0 * sinT n + meshCoord n1 j s1 * cosT n ≤ inner + half := by
+    intro n hn
+    unfold hexSide clip01 at hn
+    simp only [if_true] at hn
+    by_contra hc
+    have hlt := not_le.1 hc
+    rw [if_pos (by linarith)] at hn
+    exact lt_irrefl _ hn
+  intro n hn
+  obtain ⟨⟨⟨⟨⟨⟨_, h0⟩, h1⟩, h2⟩, h3⟩, h4⟩, h5⟩ := h
+  have hcases : n = 0 ∨ n = 1 ∨ n = 2 ∨ n = 3 ∨ n = 4 ∨ n = 5 := by omega
+  rcases hcases with rfl | rfl | rfl | rfl | rfl | rfl
+  · exact side 0 h0
+  · exact side 1 h1
+  · exact side 2 h2
+  · exact side 3 h3
+  · exact side 4 h4
+  · exact side 5 h5
+
+/-- as `index_clear_of_border` with 3/5 of a pixel of slack (the antialiased edge reaches half a pixel further; across a vertex `(1/2)/(√3/2) ≤ 3/5`):
+the integer index is still in `[1, size − 2]` for `pad ≥ 2` -/
+theorem index_clear_of_border_slack (size i : Int) (E pad : K) (hpad : 2 ≤ pad) (hsize : 2 * (E + pad) ≤ (size : K))
+    (h1 : (i : K) - ((size / 2 : Int) : K) ≤ E + 3 / 5) (h2 : -((i : K) - ((size / 2 : Int) : K)) ≤ E + 3 / 5) : 1 ≤ i ∧ i ≤ size - 2 := by
+  have a1 : 2 * (size / 2) ≤ size := by omega
+  have a2 : size ≤ 2 * (size / 2) + 1 := by omega
+  have b1 : (2 : K) * ((size / 2 : Int) : K) ≤ (size : K) := by exact_mod_cast a1
+  have b2 : (size : K) ≤ 2 * ((size / 2 : Int) : K) + 1 := by exact_mod_cast a2
+  have i1 : (0 : K) < (i : K) := by linarith
+  have i2 : (i : K) < ((size - 1 : Int) : K) := by push_cast; linarith
+  have j1 : 0 < i := by exact_mod_cast i1
+  have j2 : i < size - 1 := by exact_mod_cast i2
+  omega
+
+theorem hex_border_unrotated_aa (half hh R g pad : K) (sinT cosT : Nat → K) (size : Int) (k : Nat) (a : HexCell) (i j : Int)
+    (hhalf : half = 1 / 2) (hh56 : 5 / 6 ≤ hh) (hh1 : hh ≤ 1) (hR : 0 ≤ R) (hg : 0 ≤ g) (hpad : 2 ≤ pad) (hk : 1 ≤ k)
+    (hsize : ((2 * k + 1 : ℕ) : K) * (R * hh) * 2 + ((2 * k : ℕ) : K) * g + pad * 2 ≤ (size : K))
+    (hT : sinT 0 = 1 / 2 ∧ cosT 0 = hh ∧ sinT 1 = 1 ∧ cosT 1 = 0 ∧ sinT 2 = 1 / 2 ∧ cosT 2 = -hh ∧
+          sinT 3 = -(1 / 2) ∧ cosT 3 = -hh ∧ sinT 4 = -1 ∧ cosT 4 = 0 ∧ sinT 5 = -(1 / 2) ∧ cosT 5 = hh)
+    (ha : a.1 + a.2.1 + a.2.2 = 0)
+    (hb : (-(k : Int) ≤ a.1 ∧ a.1 ≤ k) ∧ (-(k : Int) ≤ a.2.1 ∧ a.2.1 ≤ k) ∧ (-(k : Int) ≤ a.2.2 ∧ a.2.2 ≤ k))
+    (hin : 0 < hexagonAt half (R * hh) sinT cosT size size (hexToRC (2 * hh) hh (3 / 2) a (R + g / 2) false).1
+          (hexToRC (2 * hh) hh (3 / 2) a (R + g / 2) false).2 true i j) :
+    (1 ≤ i ∧ i ≤ size - 2) ∧ (1 ≤ j ∧ j ≤ size - 2) := by
+  have hhpos : 0 < hh := by linarith
+  have hin1 := hexagonAt_aa_pos half (R * hh) sinT cosT size size _ _ i j hin
+  have q1 : (R + half / hh) * hh = R * hh + half := by field_simp
+  rw [← q1] at hin1
+  obtain ⟨e1, e2, e3, e4⟩ := hex_extent_unrotated half hh (R + half / hh) (R + g / 2) sinT cosT size a i j hhpos hT hin1
+  rw [q1] at e1 e2
+  have q2 : half / hh ≤ 3 / 5 := by rw [hhalf, div_le_iff₀ hhpos]; linarith
+  have hq : (-(k : K) ≤ (a.1 : K) ∧ (a.1 : K) ≤ k) := ⟨by exact_mod_cast hb.1.1, by exact_mod_cast hb.1.2⟩
+  have hr : (-(k : K) ≤ (a.2.1 : K) ∧ (a.2.1 : K) ≤ k) := ⟨by exact_mod_cast hb.2.1.1, by exact_mod_cast hb.2.1.2⟩
+  have hs : (-(k : K) ≤ (a.2.2 : K) ∧ (a.2.2 : K) ≤ k) := ⟨by exact_mod_cast hb.2.2.1, by exact_mod_cast hb.2.2.2⟩
+  have hsum : ((a.1 : K) + (a.2.1 : K) + (a.2.2 : K) = 0) := by exact_mod_cast ha
+  have hk1 : (1 : K) ≤ k := by exact_mod_cast hk
+  have hk0 : (0 : K) ≤ k := by linarith
+  have hρ : 0 ≤ R + g / 2 := by linarith
+  have hw : 0 ≤ (R + g / 2) * hh := mul_nonneg hρ hhpos.le
+  have kg : 0 ≤ (k : K) * g := mul_nonneg hk0 hg
+  have t1 : (R + g / 2) * hh * ((a.2.2 : K) - a.2.1) ≤ (R + g / 2) * hh * (2 * k) :=
+    mul_le_mul_of_nonneg_left (by linarith [hs.2, hr.1]) hw
+  have t1' : (R + g / 2) * hh * ((a.2.1 : K) - a.2.2) ≤ (R + g / 2) * hh * (2 * k) :=
+    mul_le_mul_of_nonneg_left (by linarith [hs.1, hr.2]) hw
+  have t2 : (k : K) * g * hh ≤ k * g := mul_le_of_le_one_right kg hh1
+  have t3 : R * (5 / 6) ≤ R * hh := mul_le_mul_of_nonneg_left hh56 hR
+  have t4 : (k : K) * R * (5 / 6) ≤ k * R * hh := mul_le_mul_of_nonneg_left hh56 (mul_nonneg hk0 hR)
+  have t6 : (R + g / 2) * (a.1 : K) ≤ (R + g / 2) * k := mul_le_mul_of_nonneg_left hq.2 hρ
+  have t6' : (R + g / 2) * (-(a.1 : K)) ≤ (R + g / 2) * k := mul_le_mul_of_nonneg_left (by linarith [hq.1]) hρ
+  have kR1 : R ≤ (k : K) * R := le_mul_of_one_le_left hR hk1
+  have za : ((a.1 : K) + (a.2.1 : K) + (a.2.2 : K)) * ((R + g / 2) * hh) = 0 := by rw [hsum, zero_mul]
+  push_cast at hsize
+  have hE : 2 * ((2 * (k : K) + 1) * (R * hh) + k * g + pad) ≤ (size : K) := by linarith
+  have r1 : (i : K) - ((size / 2 : Int) : K) ≤ (2 * (k : K) + 1) * (R * hh) + k * g + 3 / 5 := by linarith [q2, hhalf, e1, t1, t2, za]
+  have r2 : -((i : K) - ((size / 2 : Int) : K)) ≤ (2 * (k : K) + 1) * (R * hh) + k * g + 3 / 5 := by linarith [q2, hhalf, e2, t1', t2, za]
+  have c1 : (j : K) - ((size / 2 : Int) : K) ≤ (2 * (k : K) + 1) * (R * hh) + k * g + 3 / 5 := by linarith [q2, hhalf, e3, t3, t4, t6, kR1, kg]
+  have c2 : -((j : K) - ((size / 2 : Int) : K)) ≤ (2 * (k : K) + 1) * (R * hh) + k * g + 3 / 5 := by linarith [q2, hhalf, e4, t3, t4, t6', kR1, kg]
+  exact ⟨index_clear_of_border_slack size i _ pad hpad hE r1 r2, index_clear_of_border_slack size j _ pad hpad hE c1 c2⟩
+
+theorem hex_border_rotated_aa (half hh R g pad : K) (sinT cosT : Nat → K) (size : Int) (k : Nat) (a : HexCell) (i j : Int)
+    (hhalf : half = 1 / 2) (hh56 : 5 / 6 ≤ hh) (hh1 : hh ≤ 1) (hR : 0 ≤ R) (hg : 0 ≤ g) (hpad : 2 ≤ pad) (hk : 1 ≤ k)
+    (hsize : ((2 * k + 1 : ℕ) : K) * (R * hh) * 2 + ((2 * k : ℕ) : K) * g + pad * 2 ≤ (size : K))
+    (hT : sinT 0 = 0 ∧ cosT 0 = 1 ∧ sinT 1 = hh ∧ cosT 1 = 1 / 2 ∧ sinT 2 = hh ∧ cosT 2 = -(1 / 2) ∧
+          sinT 3 = 0 ∧ cosT 3 = -1 ∧ sinT 4 = -hh ∧ cosT 4 = -(1 / 2) ∧ sinT 5 = -hh ∧ cosT 5 = 1 / 2)
+    (ha : a.1 + a.2.1 + a.2.2 = 0)
+    (hb : (-(k : Int) ≤ a.1 ∧ a.1 ≤ k) ∧ (-(k : Int) ≤ a.2.1 ∧ a.2.1 ≤ k) ∧ (-(k : Int) ≤ a.2.2 ∧ a.2.2 ≤ k))
+    (hin : 0 < hexagonAt half (R * hh) sinT cosT size size (hexToRC (2 * hh) hh (3 / 2) a (R + g / 2) true).1
+          (hexToRC (2 * hh) hh (3 / 2) a (R + g / 2) true).2 true i j) :
+    (1 ≤ i ∧ i ≤ size - 2) ∧ (1 ≤ j ∧ j ≤ size - 2) := by
+  have hhpos : 0 < hh := by linarith
+  have hin1 := hexagonAt_aa_pos half (R * hh) sinT cosT size size _ _ i j hin
+  have q1 : (R + half / hh) * hh = R * hh + half := by field_simp
+  rw [← q1] at hin1
+  obtain ⟨e1, e2, e3, e4⟩ := hex_extent_rotated half hh (R + half / hh) (R + g / 2) sinT cosT size a i j hhpos hT hin1
+  rw [q1] at e1 e2
+  have q2 : half / hh ≤ 3 / 5 := by rw [hhalf, div_le_iff₀ hhpos]; linarith
+  have hq : (-(k : K) ≤ (a.1 : K) ∧ (a.1 : K) ≤ k) := ⟨by exact_mod_cast hb.1.1, by exact_mod_cast hb.1.2⟩
+  have hr : (-(k : K) ≤ (a.2.1 : K) ∧ (a.2.1 : K) ≤ k) := ⟨by exact_mod_cast hb.2.1.1, by exact_mod_cast hb.2.1.2⟩
+  have hs : (-(k : K) ≤ (a.2.2 : K) ∧ (a.2.2 : K) ≤ k) := ⟨by exact_mod_cast hb.2.2.1, by exact_mod_cast hb.2.2.2⟩
+  have hsum : ((a.1 : K) + (a.2.1 : K) + (a.2.2 : K) = 0) := by exact_mod_cast ha
+  have hk1 : (1 : K) ≤ k := by exact_mod_cast hk
+  have hk0 : (0 : K) ≤ k := by linarith
+  have hρ : 0 ≤ R + g / 2 := by linarith
+  have hw : 0 ≤ (R + g / 2) * hh := mul_nonneg hρ hhpos.le
+  have kg : 0 ≤ (k : K) * g := mul_nonneg hk0 hg
+  have t1 : (R + g / 2) * hh * ((a.1 : K) - a.2.2) ≤ (R + g / 2) * hh * (2 * k) :=
+    mul_le_mul_of_nonneg_left (by linarith [hq.2, hs.1]) hw
+  have t1' : (R + g / 2) * hh * ((a.2.2 : K) - a.1) ≤ (R + g / 2) * hh * (2 * k) :=
+    mul_le_mul_of_nonneg_left (by linarith [hq.1, hs.2]) hw
+  have t2 : (k : K) * g * hh ≤ k * g := mul_le_of_le_one_right kg hh1
+  have t3 : R * (5 / 6) ≤ R * hh := mul_le_mul_of_nonneg_left hh56 hR
+  have t4 : (k : K) * R * (5 / 6) ≤ k * R * hh := mul_le_mul_of_nonneg_left hh56 (mul_nonneg hk0 hR)
+  have t6 : (R + g / 2) * (a.2.1 : K) ≤ (R + g / 2) * k := mul_le_mul_of_nonneg_left hr.2 hρ
+  have t6' : (R + g / 2) * (-(a.2.1 : K)) ≤ (R + g / 2) * k := mul_le_mul_of_nonneg_left (by linarith [hr.1]) hρ
+  have kR1 : R ≤ (k : K) * R := le_mul_of_one_le_left hR hk1
+  have za : ((a.1 : K) + (a.2.1 : K) + (a.2.2 : K)) * ((R + g / 2) * hh) = 0 := by rw [hsum, zero_mul]
+  push_cast at hsize
+  have hE : 2 * ((2 * (k : K) + 1) * (R * hh) + k * g + pad) ≤ (size : K) := by linarith
+  have c1 : (j : K) - ((size / 2 : Int) : K) ≤ (2 * (k : K) + 1) * (R * hh) + k * g + 3 / 5 := by linarith [q2, hhalf, e1, t1, t2, za]
+  have c2 : -((j : K) - ((size / 2 : Int) : K)) ≤ (2 * (k : K) + 1) * (R * hh) + k * g + 3 / 5 := by linarith [q2, hhalf, e2, t1', t2, za]
+  have r1 : (i : K) - ((size / 2 : Int) : K) ≤ (2 * (k : K) + 1) * (R * hh) + k * g + 3 / 5 := by linarith [q2, hhalf, e3, t3, t4, t6', kR1, kg]
+  have r2 : -((i : K) - ((size / 2 : Int) : K)) ≤ (2 * (k : K) + 1) * (R * hh) + k * g + 3 / 5 := by linarith [q2, hhalf, e4, t3, t4, t6, kR1, kg]
+  exact ⟨index_clear_of_border_slack size i _ pad hpad hE r1 r2, index_clear_of_border_slack size j _ pad hpad hE c1 c2⟩
+
+
+
 end Lentil
